@@ -16,6 +16,17 @@ equally scoring survivors are ranked in the order the second recorded shuffle le
 `extra` stage (only ever to EXHIBIT bias, never to pass a check): fixed tied inputs under 200 numpy
 seeds in the three arrival orders; a relative order of two tied groups (or a winner of a tied
 target/decoy twin pair) that never occurs has probability 2^-199 < 1e-50 under a uniform shuffle.
+
+END-TO-END exhibit (same stage; cases of kind "e2e", replayable): the public API
+`picked_group_fdr.picked_group_fdr.get_protein_group_results` with method configurations from
+`methods.parse_method_toml` (one per class of grouping x picked strategy x score family of the shipped
+methods; all of them in the thorough tier) on peptide-info dicts with tied targets and decoys (distinct
+proteins of equal PEP; target/decoy twins of equal PEP; a tie block between a better and a worse group) in
+the three arrival orders, numpy seeded with a DIFFERENT seed before each of 112 calls.  Fails if a relative
+order of two tied groups, a winner of a tied twin pair, or a relative order of two tied twin pairs never
+occurs (2^-112 under a uniform shuffle that depends on the caller's seed), and if the q-values of a returned
+table are not the suffix minima of (decoys+1)/(targets+1) counted along the RETURNED ranking (ties must be
+counted in the order they were drawn, not in another one).
 """
 import random
 
@@ -27,6 +38,165 @@ from props.C02 import all_contain, run_competition
 NAMES = ["A", "B", "C", "D", "E", "F"]
 ARRIVALS = ["targets_first", "decoys_first", "interleaved"]
 N_SEEDS = 200
+E2E_SEEDS = 112  # a relative order that never occurs has probability 2^-112 < 2^-100 under a uniform shuffle
+# (name, PEP) of the proteins, one unique peptide each; kind: "ranking" = all survive, "twins" = tied target/decoy twins
+E2E_INPUTS = [
+    ("ranking", [("A", 0.001), ("B", 0.001)], [("REV__C", 0.001), ("REV__D", 0.001)]),
+    ("twins", [("A", 0.001), ("B", 0.001)], [("REV__A", 0.001), ("REV__B", 0.001)]),
+    # a tie block between a better target and a worse decoy; a better twin pair decided by the score
+    ("ranking", [("E", 0.0001), ("A", 0.001), ("B", 0.001)], [("REV__C", 0.001), ("rev_D", 0.001), ("REV__F", 0.005)]),
+    ("twins", [("E", 0.0001), ("A", 0.001), ("B", 0.002)], [("REV__E", 0.005), ("REV__A", 0.001), ("REV__B", 0.002)]),
+]
+
+
+def base_name(p):
+    for pre in ("OBSOLETE__", "REV__", "rev_"):
+        if p.startswith(pre):
+            return base_name(p[len(pre):])
+    return p
+
+
+def row_is_decoy(protein_ids):
+    ps = protein_ids.split(";")
+    return all("REV__" in p for p in ps) or all("rev_" in p for p in ps)
+
+
+def expected_qvalues(decoy_flags):
+    """suffix minima of (decoys+1)/(targets+1) counted along the given ranking"""
+    d = t = 0
+    fdrs = []
+    for f in decoy_flags:
+        if f:
+            d += 1
+        else:
+            t += 1
+        fdrs.append((d + 1) / (t + 1))
+    out, best = [], float("inf")
+    for f in reversed(fdrs):
+        best = min(best, f)
+        out.append(best)
+    return out[::-1]
+
+
+def e2e_method_classes(all_methods=False):
+    """method names from the shipped TOML files: all, or the first of every class
+    (grouping, pickedStrategy, multPEP or bestPEP score)"""
+    import tomllib
+
+    names = sorted(p.stem for p in (lib.REPO / "picked_group_fdr" / "methods").glob("*.toml"))
+    if all_methods:
+        return names
+    seen, out = set(), []
+    for n in names:
+        d = tomllib.loads((lib.REPO / "picked_group_fdr" / "methods" / (n + ".toml")).read_text())
+        k = (d.get("grouping"), d.get("pickedStrategy"), "multPEP" in d.get("scoreType", ""))
+        if k not in seen:
+            seen.add(k)
+            out.append(n)
+    return out
+
+
+def run_e2e(case):
+    """the real public API on one tied input under case["seeds"] different numpy seeds"""
+    import numpy as np
+    from picked_group_fdr import methods
+    from picked_group_fdr.picked_group_fdr import get_protein_group_results
+
+    cfg = methods.parse_method_toml(case["method"], use_pseudo_genes=False)
+    prots = [(p, fl_(s)) for p, s in case["proteins"]]
+    names = [p for p, _ in prots]
+    before, wins, tables, seen = {}, {}, 0, set()
+    q_mismatch, q_checked, q_abstained = None, 0, 0
+    for k in range(case["seeds"]):
+        pil = {"PEPTIDE%dK" % i: (pep, [p]) for i, (p, pep) in enumerate(prots)}
+        np.random.seed(case["seed_base"] + k)  # the caller's seed: a different one before every call
+        res = get_protein_group_results(pil, method_config=cfg)
+        rows = [(r.proteinIds, float(r.qValue), float(r.score)) for r in res]
+        tables += 1
+        ids = [r[0] for r in rows]
+        seen.add(tuple(ids))
+        for a in range(len(ids)):
+            wins[ids[a]] = wins.get(ids[a], 0) + 1
+            for b in range(a + 1, len(ids)):
+                before[(ids[a], ids[b])] = before.get((ids[a], ids[b]), 0) + 1
+        # q-values on the returned ranking; judged when every row is one input protein and no pair of twins is split
+        # over two rows only because a group was hidden (classic: all proteins; picked: one of each pair)
+        single = all(i in names for i in ids) and len(set(ids)) == len(ids)
+        complete = {base_name(i) for i in ids} == {base_name(p) for p in names}
+        if single and complete:
+            q_checked += 1
+            want = expected_qvalues([row_is_decoy(i) for i in ids])
+            got = [r[1] for r in rows]
+            if got != want and q_mismatch is None:
+                q_mismatch = {"seed": case["seed_base"] + k, "ranking": ids, "scores": [r[2] for r in rows], "qvalues": got, "expected": want}
+        else:
+            q_abstained += 1
+    return {
+        "e2e": {
+            "tables": tables,
+            "distinct_rankings": len(seen),
+            "before": sorted([x, y, c] for (x, y), c in before.items()),
+            "wins": wins,
+            "q_checked": q_checked,
+            "q_abstained": q_abstained,
+            "q_mismatch": q_mismatch,
+        }
+    }
+
+
+def fl_(r):
+    f = unrat(r)
+    return f.numerator / f.denominator
+
+
+def judge_e2e(case, out):
+    """the tie statement on the summary of run_e2e; None = nothing exhibited"""
+    e = out["e2e"]
+    n = e["tables"]
+    where = "end-to-end get_protein_group_results, method %s, arrival %s, %d calls each under a different numpy seed: " % (
+        case["method"], case["arrival"], n)
+    if e["q_mismatch"]:
+        m = e["q_mismatch"]
+        return where + (
+            "seed %d: the returned ranking %r carries q-values %r, but the estimate (decoys+1)/(targets+1) with suffix minima "
+            "counted along this ranking is %r (equal scores must be counted in the order the ranking shows them)"
+            % (m["seed"], m["ranking"], m["qvalues"], m["expected"])
+        )
+    before = {(x, y): c for x, y, c in e["before"]}
+    wins = e["wins"]
+    pep = {p: tuple(s) for p, s in case["proteins"]}
+    names = [p for p, _ in case["proteins"]]
+    # classic strategy: nothing competes, twins are ordinary tied groups
+    competes = case["picked"] != "classic"
+    if case["exhibit"] == "ranking" or not competes:
+        for x in names:
+            for y in names:
+                if x != y and pep[x] == pep[y] and before.get((x, y), 0) == 0:
+                    return where + (
+                        "equally scoring groups %s and %s: %s is never ranked before %s (%d distinct rankings in all); probability 2^-%d "
+                        "under a uniform shuffle driven by the caller's seed" % (x, y, x, y, e["distinct_rankings"], n)
+                    )
+        return None
+    for x in names:
+        twins = [y for y in names if y != x and base_name(y) == base_name(x)]
+        if twins and pep[twins[0]] == pep[x] and wins.get(x, 0) == 0:
+            return where + (
+                "%s never wins the competition against its equally scoring twin %s; probability 2^-%d under a uniform shuffle "
+                "driven by the caller's seed" % (x, twins[0], n)
+            )
+    tied_pairs = {}
+    for x in names:
+        tied_pairs.setdefault((base_name(x), pep[x]), []).append(x)
+    bases = sorted({b for (b, s), v in tied_pairs.items() if len(v) == 2})
+    for bx in bases:
+        for by in bases:
+            sx = [s for (b, s) in tied_pairs if b == bx][0]
+            sy = [s for (b, s) in tied_pairs if b == by][0]
+            if bx != by and sx == sy:
+                c = sum(v for (x, y), v in before.items() if base_name(x) == bx and base_name(y) == by)
+                if c == 0:
+                    return where + "the survivor of the tied pair %s is never ranked before the equally scoring survivor of the pair %s; probability 2^-%d" % (bx, by, n)
+    return None
 
 
 def arrange(targets, decoys, arrival, rng=None):
@@ -136,6 +306,38 @@ class P(P02):
                     out.append(case)
         return out
 
+    # -- end-to-end exhibit cases (kind "e2e") are evaluated by the oracle only; they make the exhibit replayable ----
+    def run_impl(self, case):
+        if case.get("kind") == "e2e":
+            return run_e2e(case)
+        return super().run_impl(case)
+
+    def model_request(self, case, impl_out):
+        if case.get("kind") == "e2e":
+            return None
+        return super().model_request(case, impl_out)
+
+    def shrink(self, case):
+        if case.get("kind") == "e2e":
+            return iter(())
+        return super().shrink(case)
+
+    def e2e_cases(self, tier, seed):
+        import tomllib
+
+        out = []
+        for m in e2e_method_classes(all_methods=(tier == "thorough")):
+            d = tomllib.loads((lib.REPO / "picked_group_fdr" / "methods" / (m + ".toml")).read_text())
+            for kind, targets, decoys in E2E_INPUTS:
+                for arrival in ARRIVALS:
+                    prots = arrange(targets, decoys, arrival)
+                    out.append({
+                        "kind": "e2e", "exhibit": kind, "method": m, "picked": d.get("pickedStrategy"), "arrival": arrival,
+                        "proteins": [[p, rat(pep)] for p, pep in prots],
+                        "seeds": E2E_SEEDS, "seed_base": 1000 * (len(out) + 1) + 7 * seed,
+                    })
+        return out
+
     # -- views: C02's + pass order + shuffle signature ---------------------------------------------
     def model_view(self, case, resp, impl_out):
         v = super().model_view(case, resp, impl_out)
@@ -213,6 +415,10 @@ class P(P02):
         return None
 
     def oracle(self, case, impl_out):
+        if case.get("kind") == "e2e":
+            if not isinstance(impl_out, dict) or "e2e" not in impl_out:
+                return "no end-to-end result: %r" % (impl_out,)
+            return judge_e2e(case, impl_out)
         if "results" not in impl_out:
             return "no result: %r" % (impl_out,)
         for k, (call, rec, res) in enumerate(zip(case["calls"], impl_out["_rec"], impl_out["results"])):
@@ -223,9 +429,13 @@ class P(P02):
 
     # -- bookkeeping -----------------------------------------------------------------------------------
     def nontrivial(self, case, impl_out):
+        if case.get("kind") == "e2e":
+            return isinstance(impl_out, dict) and "e2e" in impl_out and impl_out["e2e"]["distinct_rankings"] > 1
         return self._stats(case, impl_out)["tie"]
 
     def features(self, case, impl_out):
+        if case.get("kind") == "e2e":
+            return ["e2e", "e2e:%s" % case.get("exhibit"), "arrival=%s" % case.get("arrival")]
         f = super().features(case, impl_out)
         f.append("arrival=%s" % case.get("arrival"))
         if isinstance(impl_out, dict) and "_rec" in impl_out:
@@ -306,4 +516,33 @@ class P(P02):
                     if why:
                         failures.append({"case": case, "why": why, "kind": "bias"})
         info["min_count_of_any_relative_order"] = min(mins) if mins else None
-        return {"evaluations": evals, "failures": failures, "info": info}
+        # ---- the same question asked of the public API, under the caller's seeds ----
+        e2e = {"inputs": 0, "calls": 0, "qvalue_tables_checked": 0, "qvalue_tables_abstained": 0,
+               "min_distinct_rankings": None, "seeds_per_input": E2E_SEEDS, "methods": []}
+        distinct_nontrivial = 0
+        if not ctx.get("replay"):
+            seen_fail = set()
+            for case in self.e2e_cases(ctx.get("tier", "quick"), int(ctx.get("seed", 0) or 0)):
+                out = lib._safe(self.run_impl, case)
+                if not (isinstance(out, dict) and "e2e" in out):
+                    failures.append({"case": case, "why": "get_protein_group_results raised: %r" % (out,), "kind": "e2e"})
+                    continue
+                e = out["e2e"]
+                e2e["inputs"] += 1
+                e2e["calls"] += e["tables"]
+                evals += e["tables"]
+                e2e["qvalue_tables_checked"] += e["q_checked"]
+                e2e["qvalue_tables_abstained"] += e["q_abstained"]
+                if case["method"] not in e2e["methods"]:
+                    e2e["methods"].append(case["method"])
+                d = e["distinct_rankings"]
+                e2e["min_distinct_rankings"] = d if e2e["min_distinct_rankings"] is None else min(d, e2e["min_distinct_rankings"])
+                distinct_nontrivial += 1 if d > 1 else 0
+                why = self.oracle(case, out)
+                if why:
+                    k = (case["method"], why.split(":", 1)[1][:60] if ":" in why else why[:60])
+                    if k[1] not in seen_fail or len(failures) < 3:
+                        failures.append({"case": case, "why": why, "impl": out, "kind": "e2e"})
+                    seen_fail.add(k[1])
+        info["end_to_end"] = e2e
+        return {"evaluations": evals, "failures": failures, "info": info, "distinct_nontrivial": distinct_nontrivial}
